@@ -39,8 +39,9 @@ def edge_role(cf, fname, summ, edge):
         return ('func-body', flav)
     if fname == 'ps_program' and cctx is not None:
         return ('global-init', None)
-    if fname == 'ps_block' and callee == 'ps_block':
-        if 'TRY' in summ['tokens']:
+    if callee == 'ps_block' and fname not in ('ps_func', 'ps_program', 'ps_expr'):
+        # (whichever routine parses the block statement: ps_block itself, or a routine split off from it)
+        if 'TRY' in summ['tokens'] or any(c[0] == 'TryBlock' for c in summ['constructs']):
             # which ps_block call feeds the body argument of TryBlock?
             tb = [c for c in summ['constructs'] if c[0] == 'TryBlock']
             if not tb:
@@ -58,12 +59,14 @@ def edge_role(cf, fname, summ, edge):
                     if any(n is call_node for n in ast.walk(e.value)):
                         return ('try-body', None)
             return ('handler', None)
-        if 'WHILE' in summ['tokens'] or 'FOR' in summ['tokens']:
+        if 'WHILE' in summ['tokens'] or 'FOR' in summ['tokens'] or any(
+                e.kind == 'call' and e.recv is not None and src(e.recv) == 'LoopBlock' for e in summ['events']):
             return ('loop-body', None)
         if 'PREEMPT' in summ['tokens']:
             return ('preempt-body', None)
         return ('plain', None)
-    if fname == 'ps_expr' and callee == 'ps_expr8' and 'SPECULATION' in summ['tokens']:
+    if fname == 'ps_expr' and cctx is not None and 'SPECULATION' in summ['tokens']:
+        # (whichever routine parses the operands: ps_expr8 today)
         # operands are the parses after the Teleport back to the start of the expression
         tele = [e.line for e in summ['events'] if e.kind == 'call' and e.func == 'Teleport']
         if tele and line > min(tele):
@@ -137,6 +140,10 @@ def run(repo, chk):
             continue
         for construct, tok in TOKEN_OF.items():
             rel = [s for s in summs if tok in s['tokens']]
+            if not rel and cf.dedicated(fname, construct, tok):
+                # a routine that is only entered after the keyword was read (it never tests the token itself and builds
+                # the construct): every way through it concerns the construct
+                rel = summs
             if not rel:
                 continue
             accept = any(any(c[0] == construct for c in s['constructs']) for s in rel)
@@ -208,7 +215,9 @@ def run(repo, chk):
                    f'FUNC={bool(c & func)}/{exp_func})', GRAMMAR, cf.funcs[fname].lineno)
 
     # I7 completeness: every ctx-dependent condition is one of the documented tests
-    allowed_sites = {'ps_func_call', 'ps_expr', 'ps_stmt', 'ps_block'}
+    from ..canon import roles as _roles
+    allowed_sites = {'ps_func_call', 'ps_expr', 'ps_stmt', 'ps_block'} | \
+        {n for n in cf.funcs if _roles() and f'{GRAMMAR}::{n}' not in _roles()}     # routines split off from those
     n_sites = 0
     for fname, fn in cf.funcs.items():
         for n in ast.walk(fn):
